@@ -38,6 +38,10 @@ func NumUnchoking() int {
 
 const reqQ = 250
 
+// maxRequestLength is the largest block we are willing to upload in
+// answer to a single request.  Clients request 16 kB.
+const maxRequestLength = 128 * 1024
+
 type Requested struct {
 	Index, Begin, Length uint32
 }
@@ -852,6 +856,10 @@ func handleMessage(peer *Peer, m protocol.Message) error {
 		maybeInterested(peer)
 	case protocol.Request:
 		if peer.Info == nil || peer.amUnchoking == 0 {
+			return reject(peer, m.Index, m.Begin, m.Length)
+		}
+		if m.Length > maxRequestLength {
+			// the length sizes the buffer we upload from
 			return reject(peer, m.Index, m.Begin, m.Length)
 		}
 		if len(peer.requested) >= reqQ {
